@@ -47,6 +47,11 @@ def pawnHome : Player → BB
   | .white => BB.rank2
   | .black => BB.rank7
 
+/-- the rank a double step ends on, as a bitboard (`Game.pawnDoublePushRank`) -/
+def pawnDouble : Player → BB
+  | .white => BB.rank4
+  | .black => BB.rank5
+
 /-- squares strictly between `k` and `q` when `q` lies on a ray from `k` (nearest to `k` first);
 empty when `q` is not aligned with `k` -/
 def betweenList (k q : Sq) : List Sq :=
